@@ -239,6 +239,13 @@ func RunSearch(s *search.Search, d *Driver, p *position.Position, rp *rc.Pos, l 
 		}
 	}
 	out.Duration = time.Since(t0)
+	// the search marks itself as finished just before it hands the result to the driver: wait for the delivery
+	for i := 0; i < 2000; i++ {
+		if _, rs, _ := d.Snapshot(); len(rs) > 0 {
+			break
+		}
+		time.Sleep(time.Millisecond)
+	}
 	out.Result = s.LastSearchResult()
 	out.Iters, out.Sent, _ = d.Snapshot()
 	out.Stats = *s.Statistics()
